@@ -87,12 +87,14 @@ type Walk struct {
 	Entries  []WalkEntry
 	Problems []string
 	// shape statistics
-	MaxDepth        int
-	SparseInterior  bool // some node has both an absent and a present child link
-	InteriorNodes   int
+	MaxDepth       int
+	SparseInterior bool // some node has both an absent and a present child link
+	InteriorNodes  int
 }
 
-func (w *Walk) problem(f string, a ...interface{}) { w.Problems = append(w.Problems, fmt.Sprintf(f, a...)) }
+func (w *Walk) problem(f string, a ...interface{}) {
+	w.Problems = append(w.Problems, fmt.Sprintf(f, a...))
+}
 
 // walkVersion decodes everything reachable from a version.
 func walkVersion(st *fakes3.Store, prefix, name string) (*Walk, error) {
